@@ -12,9 +12,8 @@ impl V9 {
 impl V9Parser {
 //@ fn src/variable_versions/v9.rs - /impl V9Parser/ parse
 //@   contract: stubs/v9parser_parse.rs
-//@   closure 0: p | -> (o: ParsedNetflow) ensures o.remaining@ == p.0@, o.result == NetflowPacket::V9(p.1)
-//@   closure 1: - | -> (o: NetflowParseError) ensures o matches NetflowParseError::Partial(pp) && pp.version == 9 && pp.remaining@ =~= packet@
-//@   before "V9::parse(packet, self)": broadcast use lemma_cloned_u8;
+//@   prerules: R30
+//@   bodystart: broadcast use lemma_cloned_u8;
 //@ end
 }
 } // verus!
